@@ -56,24 +56,24 @@ def run(ctx):
     q = ctx.quick
     # ------------------------------------------------------------------ 1. the design and its monitor, model checked
     # quick: <= 4 messages, one move; thorough: <= 6 (chunking peer: 5) messages, two moves
-    ctx.model_check("writer", "MCSeqNum", consts(MaxMsgs=4 if q else 6, MaxMoves=1 if q else 2), ["C12"], timeout=1500)
-    ctx.model_check("peer", "MCSeqNum", consts(Responder="peer", MaxMsgs=4 if q else 5, MaxMoves=1 if q else 2), ["C12"], timeout=1500)
-    ctx.model_check("dev_seq_per_message", "MCSeqNum", consts(DevSeqPerMsg=True), ["C12"], expect_violation="C12")
-    ctx.model_check("dev_accept_equal", "MCSeqNum", consts(DevAcceptEq=True), ["C12"], expect_violation="C12")
-    ctx.model_check("dev_client_merge", "MCSeqNum", consts(Responder="peer", DevClientMerge=True), ["C12"], expect_violation="C12")
+    ctx.model_check("writer", "MCSeqNum", consts(MaxMsgs=4 if q else 6, MaxMoves=1 if q else 2), ["C12"], timeout=1500, workers=4)
+    ctx.model_check("peer", "MCSeqNum", consts(Responder="peer", MaxMsgs=4 if q else 5, MaxMoves=1 if q else 2), ["C12"], timeout=1500, workers=4)
+    ctx.model_check("dev_seq_per_message", "MCSeqNum", consts(DevSeqPerMsg=True), ["C12"], expect_violation="C12", workers=4)
+    ctx.model_check("dev_accept_equal", "MCSeqNum", consts(DevAcceptEq=True), ["C12"], expect_violation="C12", workers=4)
+    ctx.model_check("dev_client_merge", "MCSeqNum", consts(Responder="peer", DevClientMerge=True), ["C12"], expect_violation="C12", workers=4)
 
     # ------------------------------------------------------------------ 2. histories
     gens = []
 
     def gen(name, cfg, c, simulate=None, limit=None):
-        h, r = ctx.gen(name, "GenSeqNum", c, simulate=simulate, timeout=1500)
+        h, r = ctx.gen(name, "GenSeqNum", c, simulate=simulate, timeout=1500, workers=4)
         cs = [{"cfg": cfg, "steps": x} for x in h]
         gens.append((name, take(cs, limit, ctx.seed) if limit else cs))
 
     none_w = {"policy": "None", "responder": "writer"}
     none_p = {"policy": "None", "responder": "peer"}
-    sign_w = {"policy": "Basic256Sha256-Sign", "responder": "writer"}
-    sign_p = {"policy": "Basic256Sha256-Sign", "responder": "peer"}
+    sign_w = {"policy": "Basic256Sha256-SignAndEncrypt", "responder": "writer"}
+    sign_p = {"policy": "Basic256Sha256-SignAndEncrypt", "responder": "peer"}
     # exhaustive: <= 3 (thorough: 4) messages of 1..3 chunks, one adversary move at any point
     k = 3 if q else 4
     gen("writer_1move", none_w, consts(MaxMsgs=k))
@@ -144,8 +144,10 @@ def run(ctx):
         ctx.sample({"gen": c.get("gen"), "cfg": c["cfg"],
                     "steps": [{k: s[k] for k in ("ev", "side", "n", "kind", "w", "m", "rcv", "acc") if k in s} for s in c["steps"][:30]]})
     ctx.assumptions += ["histories run on an open channel (channel id 7, token 1); sequence numbers do not wrap (u32) within a history",
-                        "chunk headers are parsed back from the emitted bytes with MessageChunk::chunk_info (policy None and Sign leave "
-                        "them in the clear); forged headers (ForeignChannelId, MixedRequestIds) only on the policy None channel",
+                        "chunk headers are parsed back from the emitted bytes the way the receiver reads them (verify_and_remove_security "
+                        "with a helper channel of the receiving role, then MessageChunk::chunk_info); forged headers (ForeignChannelId, "
+                        "MixedRequestIds) only on the policy None channel; the secured channel of the thorough tier is Basic256Sha256 "
+                        "SignAndEncrypt with keys derived from fixed nonces (under Sign a multi chunk message does not decode: known C07 finding)",
                         "the server MessageWriter never splits a response (Chunker::encode is called with max_chunk_size 0): multi chunk "
                         "responses reach the client receiver from a peer that splits with Chunker::encode (not a sender under test)",
                         "a receiver that rejected a message has closed the connection: nothing more is delivered to it"]
